@@ -894,19 +894,9 @@ def seek_before_read(repo, col):
 def probe_statuses(repo, col):
     """C14/C18: an existence probe answers 'absent' only for 404; any other
     failure status is raised, not reported as 'missing'."""
-    rule = "E-EXC.B.http.probe"
-    fn = repo.func("http_accessor", "HttpAccessor.file_exists")
-    from .core import closure_text
-    txt = closure_text(fn)
-    has_rfs = any(isinstance(c.func, ast.Attribute)
-                  and c.func.attr == "raise_for_status"
-                  for h in helper_closure(fn) for c in calls_in(h.node))
-    mentions_status = "status_code" in txt or ".ok" in txt
-    col.add(rule, fn, "non-404 failure statuses raise", has_rfs or
-            not mentions_status, "" if has_rfs else
-            "HttpAccessor.file_exists no longer raises for failure statuses "
-            "other than 404: a server error is reported as 'file absent'",
-            undecided=not has_rfs and not mentions_status)
+    from .rules_more4 import probe_raises_for_failures
+    probe_raises_for_failures(repo, col, "http_accessor",
+                              "HttpAccessor.file_exists")
 
 
 # ---------------------------------------------------------------------
@@ -978,9 +968,14 @@ def decoder_fills_output(repo, col):
         if _stores_into(f, name):
             return True
         if depth < 3:
+            def base(a):
+                # a view of the array (chunk[channel]) is the array
+                while isinstance(a, ast.Subscript):
+                    a = a.value
+                return a
             for c in calls_in(f.node):
-                if not any(isinstance(a, ast.Name) and a.id in aliases
-                           for a in c.args):
+                if not any(isinstance(base(a), ast.Name) and
+                           base(a).id in aliases for a in c.args):
                     continue
                 h = resolve_local_call(f, c)
                 if h is None or h is f:
@@ -991,6 +986,7 @@ def decoder_fills_output(repo, col):
                     continue
                 hp = list(h.params)
                 for i, a in enumerate(c.args):
+                    a = base(a)
                     if isinstance(a, ast.Name) and a.id in aliases and \
                             i < len(hp) and writes_into(h, hp[i], depth + 1):
                         return True
